@@ -40,6 +40,13 @@
   parameters (C15_history_fresh_twin), unfolding at any point uses the CURRENT parameters
   (C15_history_unfold_current, C15_history_folded_weights_current).
 
+  Fix round Q (fix ff4bdc9): §11 states the conversion on a DAG with ORDERED, n-ary input lists:
+  the rewiring keeps every consumer's input order (C15_convert_input_order, C15_rewire_input_order)
+  and, with the parameters carried over, every surviving node computes the source tensor for EVERY
+  merge function of the ordered input list (C15_convert_graph_function, _output); the old failing
+  model `Subtract([bn(conv_a), conv_b])` is the regression witness
+  (C15_rewire_input_order_fixed_witness).
+
   Strengthening round T15 (seed C15-8): §10 states `unfold_model` on the LIST `model.layers` with
   the `trainable` attribute of every layer — clone from the configuration (arbitrary fresh
   variables), then `_clone_weights` for EVERY pair: the returned layers are the expected ones for
@@ -961,5 +968,304 @@ example : (unfoldLayers (fun _ => 1/2) (fun _ => [[7], [7], [7], [7]])
        { op := .bn { exBN with gamma := none, beta := none } exPlain.cfg.chan },
        { op := .conv exPlain, trainable := false }]).map (List.map (·.op.weights))
     = some [[[4], [5]], [[1], [1]], [[2], [1]]] := by decide +kernel
+
+
+/-! ### 11. `convert_to_folded_model` on a DAG with ORDERED input lists (fix round Q, fix ff4bdc9)
+
+  The rewiring of `convert_to_folded_model` (also reached through
+  `model_quantize(enable_bn_folding=True)`) used to feed a multi-input layer its inputs in the
+  order of `graph.predecessors()` — the edge added for a removed batch norm last — so
+  `Subtract([bn(conv_a), conv_b])` came back as `conv_b - conv_a`.  The repaired code keeps every
+  input at its position.  `OGraph` (Model/Fold.lean) has n-ary nodes with ordered input lists and an
+  arbitrary function of the ordered list at every merge. -/
+
+theorem getD_map_range {α : Type} (n k : ℕ) (f : ℕ → α) (d : α) (h : k < n) :
+    ((List.range n).map f).getD k d = f k := by
+  simp [List.getD_eq_getElem?_getD, h]
+
+theorem OGraph.valF_fuel (rs : ℚ → ℚ) (x : T) (g : OGraph) :
+    ∀ f f' k, k < f → k < f' → g.valF rs x f k = g.valF rs x f' k := by
+  intro f
+  induction f with
+  | zero => intro f' k h; omega
+  | succ f ih =>
+    intro f' k h h'
+    cases f' with
+    | zero => omega
+    | succ f' =>
+      simp only [OGraph.valF]
+      congr 2
+      apply List.map_congr_left
+      intro i _
+      split
+      · apply ih <;> omega
+      · rfl
+
+/-- the forward equation of the ordered DAG -/
+theorem OGraph.val_eq (rs : ℚ → ℚ) (x : T) (g : OGraph) (k : ℕ) :
+    g.val rs x k = (allSome ((g.node k).ins.map fun i => if i < k then g.val rs x i else none)).bind
+      ((g.node k).op.apply rs x) := by
+  unfold OGraph.val
+  conv_lhs => rw [OGraph.valF]
+  congr 2
+  apply List.map_congr_left
+  intro i _
+  split
+  · apply OGraph.valF_fuel <;> omega
+  · rfl
+
+theorem shape_getD (g : OGraph) (k : ℕ) :
+    (g.shape.getD k ⟨.other, []⟩) = ⟨(g.node k).kind, (g.node k).ins⟩ := by
+  unfold OGraph.shape OGraph.node
+  by_cases h : k < g.length
+  · simp [List.getD_eq_getElem?_getD, h]
+  · simp [List.getD_eq_getElem?_getD, h, ONode.dead]
+
+theorem shape_length (g : OGraph) : g.shape.length = g.length := by simp [OGraph.shape]
+
+
+theorem kindAt_lt (g : Graph) (i : ℕ) (h : kindAt g i ≠ .other) : i < g.length := by
+  by_contra hn
+  apply h
+  unfold kindAt
+  simp [List.getD_eq_getElem?_getD, Nat.not_lt.1 hn]
+
+theorem mem_bnToDelete (g : Graph) (p : ℕ) : p ∈ bnToDelete g ↔ ∃ i, foldSite g i = some p := by
+  unfold bnToDelete
+  simp only [List.mem_filterMap, List.mem_range]
+  constructor
+  · rintro ⟨i, _, h⟩; exact ⟨i, h⟩
+  · rintro ⟨i, h⟩
+    refine ⟨i, ?_, h⟩
+    apply kindAt_lt
+    rcases (C15_foldSite_sound g i p h).1 with hk | hk <;> rw [hk] <;> decide
+
+/-- nothing but the batch norm reads a fold site -/
+theorem site_only_successor (g : Graph) (i j : ℕ) (h : foldSite g i = some j) (k : ℕ) (hk : k < g.length)
+    (hi : i ∈ (g.getD k ⟨.other, []⟩).preds) : k = j := by
+  have hs := (C15_foldSite_sound g i j h).2.1
+  unfold successors at hs
+  have hmem : k ∈ (List.range g.length).filter fun j => (g.getD j ⟨.other, []⟩).preds.contains i := by
+    rw [List.mem_filter]
+    exact ⟨List.mem_range.2 hk, by simpa using hi⟩
+  simp only at hs
+  split at hs
+  · rename_i he
+    simp only [List.isEmpty_iff] at he
+    rw [he] at hmem; simp at hmem
+  · rw [hs] at hmem; simpa using hmem
+
+theorem site_not_deleted (g : Graph) (i j : ℕ) (h : foldSite g i = some j) : i ∉ bnToDelete g := by
+  intro hd
+  obtain ⟨c, hc⟩ := (mem_bnToDelete g i).1 hd
+  have h1 := (C15_foldSite_sound g c i hc).2.2.2
+  rcases (C15_foldSite_sound g i j h).1 with hk | hk <;> rw [hk] at h1 <;> cases h1
+
+theorem redirect_kept (g : Graph) (p : ℕ) (h : p ∉ bnToDelete g) : redirect g p = p := by
+  unfold redirect; simp [h]
+
+
+/-- well-formed source model: inbound layers come earlier in `model.layers`; behind every selected
+    site sits a stock linear conv whose batch norm has that conv as its single input and
+    normalises the conv's channel axis -/
+structure OGraph.WF (g : OGraph) : Prop where
+  topo : ∀ k i, i ∈ (g.node k).ins → i < k
+  site : ∀ i j, foldSite g.shape i = some j →
+    ∃ P p, (g.node i).op = .conv P ∧ (g.node j).op = .bn p P.cfg.chan ∧ (g.node j).ins = [i] ∧
+      P.act = none ∧ P.qk = none ∧ P.qb = none
+
+theorem convert_length (g : OGraph) (mode : FoldMode) : (g.convert mode).length = g.length := by
+  simp [OGraph.convert]
+
+theorem convert_node (g : OGraph) (mode : FoldMode) (k : ℕ) (hk : k < g.length) :
+    (g.convert mode).node k =
+      (match foldSite g.shape k, (g.node k).op with
+       | some j, .conv P =>
+         match (g.node j).op with
+         | .bn p _ => ⟨.other, rewiredIns g.shape (g.node k).ins, .folded (foldLayer P p mode)⟩
+         | _ => ⟨(g.node k).kind, rewiredIns g.shape (g.node k).ins, (g.node k).op⟩
+       | _, _ => ⟨(g.node k).kind, rewiredIns g.shape (g.node k).ins, (g.node k).op⟩) := by
+  unfold OGraph.convert
+  rw [OGraph.node, getD_map_range _ _ _ _ hk]
+  rfl
+
+theorem convert_ins (g : OGraph) (mode : FoldMode) (k : ℕ) (hk : k < g.length) :
+    ((g.convert mode).node k).ins = rewiredIns g.shape (g.node k).ins := by
+  rw [convert_node g mode k hk]
+  split
+  · split <;> rfl
+  · rfl
+
+theorem redirect_deleted (g : OGraph) (hw : g.WF) (c i : ℕ) (h : foldSite g.shape c = some i) :
+    redirect g.shape i = c := by
+  obtain ⟨P, p, _, _, hins, _⟩ := hw.site c i h
+  have hd : i ∈ bnToDelete g.shape := (mem_bnToDelete _ _).2 ⟨c, h⟩
+  unfold redirect
+  rw [if_pos (by simpa using hd), shape_getD, hins]
+  rfl
+
+/-- THE FUNCTION on the ordered DAG: every surviving node of the converted model (rewired inputs in
+    the consumers' own order, every site conv replaced by the folded layer that carries the conv
+    weights and the removed batch norm's parameters) computes the tensor of the source node it
+    stands for — for every DAG, every arity, EVERY merge function `f` of the ordered input list
+    (Subtract, Concatenate, Dot, … included), every set of sites the selection rule finds, either
+    folding mode, every `rs` -/
+theorem C15_convert_graph_function (g : OGraph) (hw : g.WF) (mode : FoldMode) (rs : ℚ → ℚ) (x : T) :
+    ∀ k, k < g.length → k ∉ bnToDelete g.shape →
+      (g.convert mode).val rs x k = g.val rs x (carrier g.shape k) := by
+  intro k
+  induction k using Nat.strong_induction_on with
+  | _ k ih =>
+  intro hk hnd
+  have hin : ((rewiredIns g.shape (g.node k).ins).map fun i => if i < k then (g.convert mode).val rs x i else none) =
+      (g.node k).ins.map fun i => if i < k then g.val rs x i else none := by
+    unfold rewiredIns
+    rw [List.map_map]
+    apply List.map_congr_left
+    intro i hi
+    have hik := hw.topo k i hi
+    simp only [Function.comp]
+    by_cases hd : i ∈ bnToDelete g.shape
+    · obtain ⟨c, hc⟩ := (mem_bnToDelete _ _).1 hd
+      obtain ⟨P, p, _, _, hins, _⟩ := hw.site c i hc
+      have hci : c < i := hw.topo i c (by rw [hins]; simp)
+      rw [redirect_deleted g hw c i hc, if_pos (by omega), if_pos hik,
+        ih c (by omega) (by omega) (site_not_deleted _ c i hc)]
+      simp [carrier, hc]
+    · rw [redirect_kept _ _ hd]
+      simp only [if_pos hik]
+      rw [ih i hik (by omega) hd]
+      have : foldSite g.shape i = none := by
+        by_contra hne
+        obtain ⟨j, hj⟩ := Option.ne_none_iff_exists'.1 hne
+        have hkj := site_only_successor g.shape i j hj k (by rw [shape_length]; exact hk)
+          (by rw [shape_getD]; exact hi)
+        exact hnd (hkj ▸ (mem_bnToDelete _ _).2 ⟨i, hj⟩)
+      simp [carrier, this]
+  rw [OGraph.val_eq, convert_ins g mode k hk, hin]
+  cases hs : foldSite g.shape k with
+  | none =>
+    have hnode : ((g.convert mode).node k).op = (g.node k).op := by
+      rw [convert_node g mode k hk, hs]
+    rw [hnode]
+    simp only [carrier, hs, Option.getD_none]
+    rw [← OGraph.val_eq]
+  | some j =>
+    obtain ⟨P, p, hop, hbn, hins, hact, hqk, hqb⟩ := hw.site k j hs
+    have hnode : ((g.convert mode).node k).op = .folded (foldLayer P p mode) := by
+      rw [convert_node g mode k hk, hs, hop]
+      simp only [hbn]
+    have hkj : k < j := hw.topo j k (by rw [hins]; simp)
+    rw [hnode]
+    simp only [carrier, hs, Option.getD_some]
+    rw [OGraph.val_eq rs x g j, hins, hbn]
+    simp only [List.map_cons, List.map_nil, if_pos hkj]
+    rw [OGraph.val_eq rs x g k, hop]
+    cases allSome ((g.node k).ins.map fun i => if i < k then g.val rs x i else none) with
+    | none => rfl
+    | some vs =>
+      match vs with
+      | [] => rfl
+      | [v] =>
+        simp only [Option.bind_some, NOp.apply, allSome, Option.map_some]
+        have := C15_fold_identity (foldLayer P p mode) rs noStats v hqk hqb hact
+        rw [this]
+        unfold convThenBN foldLayer
+        have hP : ({ cfg := P.cfg, kernel := P.kernel, bias := P.bias, qk := none, qb := none, act := none } : Plain) = P := by
+          cases P; simp_all
+        simp only [hP]
+      | _ :: _ :: _ => rfl
+
+
+/-- … in particular the model output: the output layer of the source model (a removed batch norm is
+    represented by its folded conv) gives the same predictions -/
+theorem C15_convert_graph_output (g : OGraph) (hw : g.WF) (mode : FoldMode) (rs : ℚ → ℚ) (x : T) (out : ℕ)
+    (ho : out < g.length) (hs : foldSite g.shape out = none) :
+    (g.convert mode).val rs x (redirect g.shape out) = g.val rs x out := by
+  by_cases hd : out ∈ bnToDelete g.shape
+  · obtain ⟨c, hc⟩ := (mem_bnToDelete _ _).1 hd
+    obtain ⟨P, p, _, _, hins, _⟩ := hw.site c out hc
+    have hco : c < out := hw.topo out c (by rw [hins]; simp)
+    rw [redirect_deleted g hw c out hc,
+      C15_convert_graph_function g hw mode rs x c (by omega) (site_not_deleted _ c out hc)]
+    simp [carrier, hc]
+  · rw [redirect_kept _ _ hd, C15_convert_graph_function g hw mode rs x out ho hd]
+    simp [carrier, hs]
+
+/-- INPUT ORDER (repaired code, fix ff4bdc9): in the returned model every layer has as many inputs
+    as in the source model, and position by position the input is the source input itself, or —
+    when that was a removed batch norm — the conv in front of it.  Any arity, any DAG. -/
+theorem C15_convert_input_order (g : OGraph) (hw : g.WF) (mode : FoldMode) (k : ℕ) (hk : k < g.length) :
+    ((g.convert mode).node k).ins.length = (g.node k).ins.length ∧
+    ∀ (pos p : ℕ), (g.node k).ins[pos]? = some p →
+      (p ∉ bnToDelete g.shape → ((g.convert mode).node k).ins[pos]? = some p) ∧
+      (∀ c, foldSite g.shape c = some p → ((g.convert mode).node k).ins[pos]? = some c) := by
+  rw [convert_ins g mode k hk]
+  unfold rewiredIns
+  refine ⟨by simp, ?_⟩
+  intro pos p hp
+  rw [List.getElem?_map, hp]
+  refine ⟨fun hd => ?_, fun c hc => ?_⟩
+  · rw [Option.map_some, redirect_kept _ _ hd]
+  · rw [Option.map_some, redirect_deleted g hw c p hc]
+
+/-- the same for the model `convert_to_folded_model` itself returns (layers unchanged) -/
+theorem C15_rewire_input_order (g : OGraph) (hw : g.WF) (k : ℕ) (hk : k < g.length) :
+    (g.rewire.node k).ins.length = (g.node k).ins.length ∧
+    (g.rewire.node k).op = (g.node k).op ∧
+    ∀ (pos p : ℕ), (g.node k).ins[pos]? = some p →
+      (p ∉ bnToDelete g.shape → (g.rewire.node k).ins[pos]? = some p) ∧
+      (∀ c, foldSite g.shape c = some p → (g.rewire.node k).ins[pos]? = some c) := by
+  have hn : g.rewire.node k = { g.node k with ins := rewiredIns g.shape (g.node k).ins } := by
+    unfold OGraph.rewire
+    rw [OGraph.node, getD_map_range _ _ _ _ hk]
+  rw [hn]
+  unfold rewiredIns
+  refine ⟨by simp, rfl, ?_⟩
+  intro pos p hp
+  simp only [List.getElem?_map, hp, Option.map_some]
+  exact ⟨fun hd => by rw [redirect_kept _ _ hd], fun c hc => by rw [redirect_deleted g hw c p hc]⟩
+
+/-! the old failing model: `Subtract([bn(conv_a), conv_b])` -/
+def exSub : List T → T
+  | [u, v] => List.zipWith (· - ·) u v
+  | _ => []
+def exPlainB : Plain := { exPlain with kernel := [5], bias := none }
+def exOG : OGraph :=
+  [⟨.input, [], .input⟩, ⟨.conv2d, [0], .conv exPlain⟩, ⟨.bn, [1], .bn exBN exPlain.cfg.chan⟩,
+   ⟨.conv2d, [0], .conv exPlainB⟩, ⟨.other, [2, 3], .merge exSub⟩]
+
+example : exOG.WF := by
+  constructor
+  · intro k i h
+    match k with
+    | 0 | 1 | 2 | 3 | 4 => simp [OGraph.node, exOG] at h <;> omega
+    | k + 5 => simp [OGraph.node, exOG, ONode.dead] at h
+  · intro i j h
+    have hi : i < 5 := kindAt_lt exOG.shape i (by
+      rcases (C15_foldSite_sound _ i j h).1 with hk | hk <;> rw [hk] <;> decide)
+    match i, hi with
+    | 0, _ => exact absurd (h.symm.trans (by decide : foldSite exOG.shape 0 = none)) (by simp)
+    | 2, _ => exact absurd (h.symm.trans (by decide : foldSite exOG.shape 2 = none)) (by simp)
+    | 3, _ => exact absurd (h.symm.trans (by decide : foldSite exOG.shape 3 = none)) (by simp)
+    | 4, _ => exact absurd (h.symm.trans (by decide : foldSite exOG.shape 4 = none)) (by simp)
+    | 1, _ =>
+      have : j = 2 := by
+        have : foldSite exOG.shape 1 = some 2 := by decide
+        rw [this] at h; exact (Option.some.inj h).symm
+      subst this
+      exact ⟨exPlain, exBN, rfl, rfl, rfl, rfl, rfl, rfl⟩
+
+/-- regression witness of the repaired defect (fix ff4bdc9): the merge of the returned model reads
+    `[conv_a, conv_b]` (it read `[conv_b, conv_a]`), and with the parameters carried over the
+    folded model computes the source model's 2 = 17 - 15 (it computed -2) -/
+theorem C15_rewire_input_order_fixed_witness :
+    rewiredIns exOG.shape [2, 3] = [1, 3] ∧ rewiredInsOld exOG.shape [2, 3] = [3, 1] ∧
+    ((exOG.convert .ema).node 4).ins = [1, 3] ∧
+    exOG.val (fun _ => 1/2) [3] 4 = some [2] ∧
+    (exOG.convert .ema).val (fun _ => 1/2) [3] 4 = some [2] ∧
+    OGraph.val (fun _ => 1/2) [3]
+      ((exOG.convert .ema).set 4 ⟨.other, rewiredInsOld exOG.shape [2, 3], .merge exSub⟩) 4 = some [-2] := by
+  refine ⟨by decide, by decide, by decide +kernel, by decide +kernel, by decide +kernel, by decide +kernel⟩
 
 end QKV.Fold
